@@ -74,8 +74,11 @@ func (electsim) Generate(rng *Rand, prop, tier string) *Script {
 			s.Ops = append(s.Ops, Op{K: "down", A: r})
 		case x < 75:
 			s.Ops = append(s.Ops, Op{K: "up", A: r})
-		case x < 82:
+		case x < 80:
 			s.Ops = append(s.Ops, Op{K: "start", A: r})
+		case x < 84:
+			// every attached replica is removed: the volume goes down and the next start is a new election round
+			s.Ops = append(s.Ops, Op{K: "drop"})
 		case x < 88:
 			s.Ops = append(s.Ops, Op{K: "setrev", A: r, B: int64(rng.Range(1, 1000))})
 		case x < 93:
@@ -98,6 +101,11 @@ type elRun struct {
 	step      int
 	shape     []string
 	signalled string // ip last signalled "start" successfully
+	// the harness's own view of the current election round: who has registered since the
+	// volume last had no replica attached (the controller's map is NOT consulted for this)
+	round map[string]types.RegReplica
+	// replicas the controller has found unreachable since their last registration
+	unreach map[string]bool
 }
 
 func (er *elRun) viol(clause, format string, a ...interface{}) {
@@ -237,6 +245,15 @@ func (er *elRun) run() {
 			}
 		}
 		if !sr.up {
+			if r.From == er.ctrlN {
+				// the controller found this replica unreachable: it may forget the registration
+				// for the revision comparison until the replica registers again (the
+				// registration still counts as made for the majority of this round)
+				if er.unreach == nil {
+					er.unreach = map[string]bool{}
+				}
+				er.unreach[sr.ip] = true
+			}
 			return simrt.HTTPRefuse
 		}
 		return simrt.HTTPDeliver
@@ -275,6 +292,14 @@ func (er *elRun) run() {
 			if sr.opened {
 				st = "dirty"
 			}
+			if er.round == nil {
+				er.round = map[string]types.RegReplica{}
+			}
+			if len(er.ctrl.ListReplicas()) == 0 {
+				// a registration counts for the start it was made for
+				er.round[ip] = types.RegReplica{Address: ip, UUID: uuid, RevCount: rev, RepState: st}
+			}
+			delete(er.unreach, ip)
 			simrt.GoNamed(sr.node, fmt.Sprintf("%s/reg%d", sr.node.Name, i), func() {
 				cc := cclient.NewControllerClient("http://10.0.0.1:9501")
 				err = cc.Register(ip, uuid, rev, "Backend", time.Second, st)
@@ -287,6 +312,38 @@ func (er *elRun) run() {
 			_ = err
 			er.shape = append(er.shape, "reg")
 			er.res.stat("registrations", 1)
+		case "drop":
+			list := append([]types.Replica(nil), er.ctrl.ListReplicas()...)
+			if len(list) == 0 {
+				continue
+			}
+			done := false
+			simrt.GoNamed(er.ctrlN, fmt.Sprintf("admin/drop%d", i), func() {
+				cc := cclient.NewControllerClient("http://10.0.0.1:9501")
+				for _, r := range list {
+					cc.DeleteReplica(r.Address)
+				}
+				done = true
+				w.Kick()
+			})
+			if !pump(10*time.Minute, func() bool { return done }) {
+				er.viol("drop-hung", "removing the replicas did not return")
+				break
+			}
+			if len(er.ctrl.ListReplicas()) == 0 {
+				// a new round: everybody has to come back and register again
+				er.round = map[string]types.RegReplica{}
+				er.unreach = map[string]bool{}
+				er.signalled = ""
+				for _, x := range er.reps {
+					x.opened, x.registered, x.signals, x.mode = false, false, 0, ""
+					if x.state == "open" {
+						x.state = "closed"
+					}
+				}
+				er.res.stat("volume_dropped", 1)
+				er.shape = append(er.shape, "drop")
+			}
 		case "start":
 			if sr.signals == 0 && er.ctrl.MaxRevReplica == sr.ip {
 				// a replica calls Start only after it was told to; the tentative leader
@@ -348,10 +405,17 @@ func hostOnly(a string) string {
 func (er *elRun) onStartSignal(target *stubRep) {
 	c := er.ctrl
 	er.res.stat("start_signals", 1)
+	// judged against the registrations of THIS round as the harness saw them being made;
+	// the controller's own map is only shown in the message
 	reg := map[string]types.RegReplica{}
-	for k, v := range c.RegisteredReplicas {
+	for k, v := range er.round {
 		reg[k] = v
 	}
+	var own []string
+	for k, v := range c.RegisteredReplicas {
+		own = append(own, fmt.Sprintf("%s:rev=%d", k, v.RevCount))
+	}
+	sort.Strings(own)
 	var ips []string
 	for k := range reg {
 		ips = append(ips, k)
@@ -359,7 +423,13 @@ func (er *elRun) onStartSignal(target *stubRep) {
 	sort.Strings(ips)
 	// (i) only after a majority registered
 	if len(reg) < er.rf/2+1 {
-		er.viol("start-signalled-before-majority", "start signalled to %s with %d of RF=%d replicas registered (%v)", target.ip, len(reg), er.rf, ips)
+		er.viol("start-signalled-before-majority", "start signalled to %s with %d of RF=%d replicas registered for this start (%v; the controller's map: %v)", target.ip, len(reg), er.rf, ips, own)
+		return
+	}
+	// ... and the controller's own registry (which forgets a leader it found unreachable
+	// until that replica registers again) must hold a majority as well
+	if len(c.RegisteredReplicas) < er.rf/2+1 {
+		er.viol("start-signalled-before-majority", "start signalled to %s while the controller's registry holds %d of RF=%d replicas (%v)", target.ip, len(c.RegisteredReplicas), er.rf, own)
 		return
 	}
 	if _, ok := reg[target.ip]; !ok {
@@ -381,7 +451,7 @@ func (er *elRun) onStartSignal(target *stubRep) {
 	for _, ip := range ips {
 		r := reg[ip]
 		sr := er.repByIP(ip)
-		if sr == nil || !sr.up || r.RepState == "rebuilding" {
+		if sr == nil || !sr.up || er.unreach[ip] || r.RepState == "rebuilding" {
 			continue
 		}
 		if r.RevCount > best {
